@@ -441,12 +441,20 @@ class ColorValue(Value):
                         raw.append(item.value.value)
                         check += 'N'
                     elif type_ == Value.PERCENTAGE:
-                        if HSL:
-                            # save as percentage fraction
-                            raw.append(item.value.value / 100.0)
-                        else:
-                            # save as real value of percentage of 255
-                            raw.append(int(255 * item.value.value / 100))
+                        try:
+                            if HSL:
+                                # save as percentage fraction
+                                raw.append(item.value.value / 100.0)
+                            else:
+                                # save as real value of percentage of 255
+                                raw.append(int(255 * item.value.value / 100))
+                        except OverflowError:
+                            self.wellformed = False
+                            self._log.error(
+                                'ColorValue: Percentage out of range: %s'
+                                % item.value.cssText
+                            )
+                            return
                         check += 'P'
 
                 # validate
